@@ -68,7 +68,7 @@ ASSUMPTIONS = [
 def strategy(tier):
     big = tier == "thorough"
     inst = gen.instances(
-        max_jobs=5, max_ops=5, max_machines=5, max_total=20 if big else 14, with_text=True
+        max_jobs=5, max_ops=5, max_machines=5, max_total=20 if big else 14, with_text=True, big_ok=True
     )
     nonflex = gen.instances(
         max_jobs=5, max_ops=5, max_machines=4, max_total=20 if big else 14, flexible=False, with_text=True
